@@ -7,18 +7,18 @@ CONFIG = dict(
     level_text="Machine-checked in Lean 4: for every channel capacity, any number of producers and every interleaving of the run-service loop model, handler "
                "executions are by the consumer only, never two at a time, and only of items that were enqueued (handlers_serial, handlers_only_on_consumer, "
                "run_only_enqueued; witness direct_call_breaks_serial for the design in which a producer calls a handler inline). The model is tied to the code "
-               "statically: harness/extract/c04 type-checks runservice, sche, timer, event, actorex/disp, actorex/service and the pomelo SessionsImpl package on "
-               "every run and regenerates a 195-node graph (static calls, goroutine roots, closures handed to time.AfterFunc, every call through a func-typed "
+               "statically: harness/extract/c04 type-checks runservice, sche, timer, event, actorex/disp, actorex/mailbox, actorex/service and the pomelo SessionsImpl package on "
+               "every run and regenerates a 214-node graph (static calls, goroutine roots, closures handed to time.AfterFunc, every call through a func-typed "
                "field/variable, cell2 interface or into service-side packages, channel sends, direct-mode code of the event centre); entry_only_via_loop proves "
                "on that graph that no `go` body, AfterFunc closure or exported function outside the reviewed loop-side API reaches an invocation point of service "
                "code along calls, spawns and stored-closure dispatch (so every such path passes through a queue), invocation_points_reviewed that the graph "
                "contains no unreviewed invocation point / literal use, invocations_on_loop and posted_closures_on_loop that every invocation point is wired to "
                "RunService.loop, timer_roots_enqueue that the timer goroutine reaches a channel send. Dynamically, two instrumented real services record "
-               "goroutine and in-flight count at 14 entry-point kinds under concurrent producers; the monitor predicate Loop.Mon.ok is evaluated on those records.",
+               "goroutine and in-flight count at 17 entry-point kinds under concurrent producers; the monitor predicate Loop.Mon.ok is evaluated on those records.",
     level_note="Partial: the Go scheduler and memory model are not modelled; reflect.Select, proto.actor (mailbox run -> Receive) and apimapper's reflective "
                "handler call are trusted links of the graph; the reviewed tables of lean/Cell2v/Spec/C04.lean (which keys are service code, which exported "
                "functions are loop-side API to be called only from the service's goroutine) are a hand-written description checked for completeness, not for truth; "
-               "code outside the seven analysed packages is covered only by the dynamic half.",
+               "code outside the eight analysed packages is covered only by the dynamic half.",
     gen=["cd harness && go1.26 run ./extract/c04 -out ../lean/Cell2v/Gen/C04Graph.lean"],
     lean_targets=["Cell2v.Props.C04", "modeld_c04"],
     driver="modeld_c04",
@@ -40,9 +40,10 @@ CONFIG = dict(
          "concurrently, 1-16 poster goroutines (0-400 posted closures per service), one-shot and repeating timers (runtime timer goroutines), local-event "
          "publishers, a global-event publisher, root-context notifies, API requests / raw requests / unserialisable requests / one request that times out "
          "(30 s virtual) in both directions between the services, and up to 40 scripted network goroutines driving the real pomelo.SessionsImpl "
-         "(create, messages, close); handlers dwell inside the service by virtual sleep / yield / spin. One evaluation = one burst: per service and entry kind "
-         "(post, tmr, lev, gev, req, mute, raw, ntf, rsp, tmo, sfl, sadd, smsg, srem) the number of entries, the set of goroutines (canonical numbering) and "
-         "the largest number of goroutines inside the service, compared with the serial model's observation and checked by the monitor predicate; "
+         "(create, messages, close), notifies whose handler outlasts the mailbox's 20 ms frame budget with a backlog behind them (smoothing pauses, counted in the histogram via the verif hook), "
+         "timers armed with zero / negative delay from the service and from a foreign goroutine, and notifies to up to 12 sibling actors sharing A's dispatcher while A's goroutine is kept busy (more runs pending than the 9-slot channel holds); handlers dwell inside the service by virtual sleep / yield / spin. One evaluation = one burst: per service and entry kind "
+         "(post, tmr, tz, lev, gev, req, mute, raw, ntf, slow, sib, rsp, tmo, sfl, sadd, smsg, srem) the number of entries, the set of goroutines (canonical numbering) and "
+         "the largest number of pieces of the service's code in progress at once (another goroutine or a nested piece), compared with the serial model's observation and checked by the monitor predicate; "
          "non-trivial = every well-formed op; distinct = distinct (op, observation) pairs",
     trusted_base=[
         "Lean 4.33.0 kernel; axioms of every property theorem audited on each run (allowed: propext, Classical.choice, Quot.sound); graph obligations by decide +kernel (kernel evaluation, no extra axiom)",
